@@ -27,6 +27,29 @@
 #include "table.h"
 #include "ftype.h"
 
+#ifdef ALDOR_VERIF
+/*
+ * H3 driver events: libClose is where the stream of a written .ao file is
+ * really closed; log the value fclose returned and the stream's error flag.
+ */
+#include "verifhook.h"
+extern int	verifPhFileNo;		/* phase.c */
+static int	verifLibWr = 0;		/* set by libClose: the lib being closed was opened for writing */
+
+static int
+verifLibFclose(FILE *f)
+{
+	int werr = ferror(f) ? 1 : 0;
+	int rc   = fclose(f);
+	if (verifLibWr)
+		VERIF_EVENT(("{\"ev\":\"OutClose\",\"file\":%d,\"kind\":\"ao\",\"rc\":%d,\"werr\":%d}",
+			     verifPhFileNo, rc, werr));
+	return rc;
+}
+#define fclose(f)	verifLibFclose(f)
+#endif /* ALDOR_VERIF */
+
+
 Bool	libDebug 	= false;
 Bool	libLazyDebug 	= false;
 Bool	libVerboseDebug	= false;
@@ -330,6 +353,9 @@ libClearPos(Lib lib)
 void
 libClose(Lib lib)
 {
+#ifdef ALDOR_VERIF
+	verifLibWr = !lib->rdOnly;
+#endif
 	if (lib->rdOnly)
 		stabFree(lib->stab);
 	else
